@@ -169,6 +169,9 @@ func (h c06hook) exits() bool { return h.Kind == 4 || (h.Kind == 6 && h.Mode == 
 // Nested log calls through an unrelated logger and Yields runtime.Gosched() calls before they look at anything;
 // Conc: 1 = another goroutine logs on yet another logger while the calls of the case run, 2 = under GOMAXPROCS(1)
 //
+// Conc 5 / 6 (class contend, c06_contend.go; 6 = bounded stress): while each call of the case is made, other
+// goroutines keep the locked WriteSyncer below the IO core busy; Reps = the first scenario, Millis = the bound.
+//
 // Conc 3 / 4 (class stress; 4 = under GOMAXPROCS(1)): the calls of the case themselves run concurrently - on
 // 2 x GOMAXPROCS goroutines, each call Reps times, next to as many goroutines that log on another logger - for at
 // most Millis milliseconds; of the outcomes of one call the one that is not a panic with the call's message is
@@ -491,9 +494,13 @@ type c06recSink struct {
 	staged    []byte
 	committed []byte
 	file      *os.File
+	onWrite   atomic.Pointer[func(p []byte)] // class contend (c06_contend.go): a gated / slow sink
 }
 
 func (s *c06recSink) Write(p []byte) (int, error) {
+	if h := s.onWrite.Load(); h != nil {
+		(*h)(p) // before anything is staged: the caller is parked / slowed down inside the sink
+	}
 	s.mu.Lock()
 	defer s.mu.Unlock()
 	s.staged = append(s.staged, p...)
@@ -556,6 +563,14 @@ func (st *c06stack) build(d *c06ws, mkFile func(k int) *os.File) zapcore.WriteSy
 		st.bufs = append(st.bufs, b)
 		return b
 	case 2:
+		if m := d.Kids[0]; m.Kind == 4 && len(m.Kids) > 0 {
+			// Lock(multi(...)) spelled as the public constructor spells it
+			ks := make([]zapcore.WriteSyncer, len(m.Kids))
+			for i, k := range m.Kids {
+				ks[i] = st.build(k, mkFile)
+			}
+			return zap.CombineWriteSyncers(ks...)
+		}
 		return zapcore.Lock(st.build(d.Kids[0], mkFile))
 	case 3:
 		var w io.Writer = st.build(d.Kids[0], mkFile) // an io.Writer whose dynamic type has a Sync method
@@ -1034,6 +1049,9 @@ func c06runStress(cs *c06case) SX {
 
 // in-process run of all calls of a case
 func c06run(cs *c06case) SX {
+	if cs.Noise != nil && cs.Noise.Conc >= 5 {
+		return c06runContend(cs)
+	}
 	if cs.Noise != nil && cs.Noise.Conc >= 3 {
 		return c06runStress(cs)
 	}
@@ -2181,6 +2199,7 @@ func c06makePlan(c *Ctx, emitTable bool) *c06plan {
 		plan.add(cs, "random", "")
 	}
 	c06fwdPlan(c, plan, table, hooks, dstacks)
+	c06contendPlan(c, plan, table)
 	return plan
 }
 
